@@ -191,3 +191,85 @@ def gen_vcs(repo, out):
 
 
 EXTRA_GENERATORS.append(gen_vcs)
+
+
+# ---------------------------------------------------------------- config: formats, candidates, defaults, init templates
+def gen_config(repo, out):
+    mod = parse_file(repo, "config.py")
+    emit_strs(out, "SUPPORTED_CONFIGS", str_seq(top_assign(mod, "SUPPORTED_CONFIGS")), "config.SUPPORTED_CONFIGS")
+    # _pick_config_filepath: config_candidates = [path / "<name>", ...]
+    fn = top_func(mod, "_pick_config_filepath")
+    cand = None
+    for n in fn.body:
+        if isinstance(n, ast.AnnAssign) and isinstance(n.target, ast.Name) and n.target.id == "config_candidates":
+            cand = n.value
+        if isinstance(n, ast.Assign) and isinstance(n.targets[0], ast.Name) and n.targets[0].id == "config_candidates":
+            cand = n.value
+    if not isinstance(cand, ast.List):
+        die("_pick_config_filepath: config_candidates list not found")
+    names = []
+    for e in cand.elts:
+        if not (isinstance(e, ast.BinOp) and isinstance(e.op, ast.Div) and isinstance(e.left, ast.Name) and e.left.id == "path"):
+            die("_pick_config_filepath: unexpected candidate " + ast.unparse(e))
+        names.append(cstr(e.right))
+    emit_strs(out, "CONFIG_CANDIDATES", names, "config._pick_config_filepath: candidate order")
+    # the section test: (b"bumpver]" in data or b"pycalver]" in data) and b"current_version" in data ; fallback name
+    src = ast.unparse(fn)
+    want = "(b'bumpver]' in data or b'pycalver]' in data) and b'current_version' in data"
+    if want not in src:
+        die("_pick_config_filepath: the has_bumpver_section test changed: expected %s" % want)
+    loops = [n for n in fn.body if isinstance(n, ast.For)]
+    if len(loops) != 2:
+        die("_pick_config_filepath: expected two loops over the candidates")
+    ret = fn.body[-1]
+    if not (isinstance(ret, ast.Return) and isinstance(ret.value, ast.BinOp) and isinstance(ret.value.right, ast.Constant)):
+        die("_pick_config_filepath: unexpected fallback")
+    emit_str(out, "CONFIG_FALLBACK", cstr(ret.value.right), "config._pick_config_filepath: fallback file name")
+    # BOOL_OPTIONS = {'commit': False, 'tag': None, 'push': None}
+    bo = top_assign(mod, "BOOL_OPTIONS")
+    if not isinstance(bo, ast.Dict):
+        die("BOOL_OPTIONS: expected dict literal")
+    rows = []
+    for k, v in zip(bo.keys, bo.values):
+        if not (isinstance(v, ast.Constant) and v.value in (False, None, True)):
+            die("BOOL_OPTIONS: unexpected default")
+        rows.append("  (%s, %s) (* %s: %r *)" % (q(cstr(k)), "None" if v.value is None else "(Some %s)" % ("true" if v.value else "false"), cstr(k), v.value))
+    out.write("(* config.BOOL_OPTIONS: option -> default (None = decided later) *)\nDefinition BOOL_OPTIONS : list (list N * option bool) := [\n" + ";\n".join(rows) + "\n].\n\n")
+    # truthy spellings in _parse_cfg: val.lower() in ("yes", "true", "1", "on")
+    pc = top_func(mod, "_parse_cfg")
+    tup = None
+    for n in ast.walk(pc):
+        if isinstance(n, ast.Compare) and len(n.ops) == 1 and isinstance(n.ops[0], ast.In) and isinstance(n.comparators[0], ast.Tuple):
+            left = n.left
+            if isinstance(left, ast.Call) and isinstance(left.func, ast.Attribute) and left.func.attr == "lower":
+                tup = n.comparators[0]
+    if tup is None:
+        die("_parse_cfg: truthy spellings tuple not found")
+    emit_strs(out, "INI_TRUTHY", str_seq(tup), "config._parse_cfg: val.lower() in (...)")
+    # string constants
+    for name in ("DEFAULT_CONFIGPARSER_BASE_TMPL", "DEFAULT_CONFIGPARSER_SETUP_CFG_STR", "DEFAULT_CONFIGPARSER_SETUP_PY_STR", "DEFAULT_CONFIGPARSER_README_RST_STR",
+                 "DEFAULT_CONFIGPARSER_README_MD_STR", "DEFAULT_PYPROJECT_TOML_BASE_TMPL", "DEFAULT_BUMPVER_TOML_BASE_TMPL", "DEFAULT_TOML_PYCALVER_STR",
+                 "DEFAULT_TOML_BUMPVER_STR", "DEFAULT_TOML_DOT_BUMPVER_STR", "DEFAULT_TOML_PYPROJECT_STR", "DEFAULT_TOML_SETUP_PY_STR", "DEFAULT_TOML_README_RST_STR",
+                 "DEFAULT_TOML_README_MD_STR"):
+        node = top_assign(mod, name)
+        # """...""".lstrip()
+        if not (isinstance(node, ast.Call) and isinstance(node.func, ast.Attribute) and node.func.attr == "lstrip" and not node.args):
+            die("%s: expected a string literal with .lstrip()" % name)
+        emit_str(out, name, cstr(node.func.value).lstrip(), "config.%s (after .lstrip())" % name)
+    # default_config: the two dicts filename -> template name, in order
+    dc = top_func(mod, "default_config")
+    dicts = [n.value for n in ast.walk(dc) if isinstance(n, ast.Assign) and isinstance(n.targets[0], ast.Name)
+             and n.targets[0].id == "default_pattern_strs_by_filename" and isinstance(n.value, ast.Dict)]
+    if len(dicts) != 2:
+        die("default_config: expected two default_pattern_strs_by_filename dicts")
+    for label, dnode in zip(("CFG", "TOML"), dicts):
+        rows = []
+        for k, v in zip(dnode.keys, dnode.values):
+            if not isinstance(v, ast.Name):
+                die("default_config: template is not a name")
+            rows.append("  (%s, %s) (* %s *)" % (q(cstr(k)), v.id, cstr(k)))
+        out.write("(* config.default_config: per-file pattern blocks for format %s, in dict order *)\n"
+                  "Definition DEFAULT_PATTERNS_%s : list (list N * list N) := [\n%s\n].\n\n" % (label, label, ";\n".join(rows)))
+
+
+EXTRA_GENERATORS.append(gen_config)
